@@ -9,6 +9,7 @@
 (*            hand-placed PIT layers), user_ok: it can be evaluated         *)
 (*   snopt0 / snopt1  options of every SuperNet block read from the USER's  *)
 (*            combiner objects before / after the conversion                *)
+(*   bn_sens  the output depends on the BatchNorm layers on the probe batch  *)
 (*   conv_ok, err, errk                      did the constructor return     *)
 (*   u0 / w1 s1 u1 kids     .training of the user's model before / of the   *)
 (*                          wrapper, its seed, the user's model after       *)
@@ -146,7 +147,7 @@ CNasCfg(t, a, cfg, asis) ==
 CWrapped(t, a, cfg, asis) ==
     IF ~Claimed(t.method) THEN OK
     ELSE IF t.dw \in 0..TOL THEN
-        IF ~FnPreserved(a, asis)
+        IF ~FnPreserved(a, asis) /\ t.bn_sens
         THEN D("F51 / F73 predicted by the as-implemented model (wrapped function differs) but not observed")
         ELSE OK
     ELSE IF KF_ReuseBN(a, cfg) /\ ~FnPreserved(a, asis)
@@ -171,7 +172,7 @@ CUserParams(t, a, cfg, asis) ==
 CUserOut(t, a, cfg, asis) ==
     IF ~Claimed(t.method) THEN OK
     ELSE IF t.du \in 0..TOL THEN
-        IF ~UserFnKept(a, asis)
+        IF ~UserFnKept(a, asis) /\ t.bn_sens
         THEN D("F50 predicted by the as-implemented model (caller's outputs change) but not observed")
         ELSE OK
     ELSE IF KF_PlacedBN(a, cfg) /\ ~UserFnKept(a, asis)
@@ -203,7 +204,10 @@ WalkH(t, i, lastm, claimed, lin3) ==
              l2 == IF st.a = "train" THEN TRUE ELSE IF st.a = "eval" THEN FALSE ELSE lastm
              c2 == claimed \/ st.a \in {"train", "eval"}
          IN  IF ~st.ok THEN
-                 IF lin3 THEN WalkH(t, i + 1, l2, c2, lin3)      \* F52: reported by CWrapped / CExport
+                 IF lin3 THEN OK      \* F52: reported by CWrapped / CExport (a call that raised half-way leaves the flags anywhere)
+                 ELSE IF st.a \in {"summary", "cost", "icv", "nassum"}     \* whether an observer can be evaluated is not C07's claim
+                      THEN LET rest == WalkH(t, i + 1, l2, c2, lin3) IN
+                           IF rest = OK THEN D("history step " \o ToString(i) \o " (" \o st.a \o ") raised " \o st.err) ELSE rest
                  ELSE V("C07.mode_history: step " \o ToString(i) \o " (" \o st.a \o ") raised " \o st.err)
              ELSE IF c2 /\ ~(st.w = l2 /\ st.s = l2 /\ st.kids)
                  THEN V("C07.mode_history: after step " \o ToString(i) \o " (" \o st.a \o ") of " \o ToString(t.hist)
